@@ -108,6 +108,8 @@ def install(M):
         t[p + "saturating_mul"] = lambda e, st, a: X.i_saturating(e, st, a, "mul")
         t[p + "checked_div"] = lambda e, st, a: X.i_checked_div(e, st, a, "Div")
         t[p + "checked_rem"] = lambda e, st, a: X.i_checked_div(e, st, a, "Rem")
+        t[p + "wrapping_shl"] = lambda e, st, a: X.i_wrapping_shift(e, st, a, "Shl")
+        t[p + "wrapping_shr"] = lambda e, st, a: X.i_wrapping_shift(e, st, a, "Shr")
         t[p + "checked_shl"] = lambda e, st, a: X.i_checked_shift(e, st, a, "Shl")
         t[p + "checked_shr"] = lambda e, st, a: X.i_checked_shift(e, st, a, "Shr")
         t[p + "abs_diff"] = X.i_abs_diff
@@ -409,6 +411,30 @@ class Ext:
         for s in self.I.assume(st, flit(lt(y.l, w))):
             for s2, v in self.I.binop(s, op, x, y, e, x.ty):
                 out.append((s2, "val", some(v)))
+        return out
+
+    def i_wrapping_shift(self, e, st, a, op):
+        """`x.wrapping_shl(n)` shifts by n mod width: decided by cases when the path condition confines n to a few
+        values (that is where a shift by exactly the width silently becomes no shift at all)"""
+        vs = self._ints(a)
+        if vs is None or vs[0].ty in SIGNED:
+            return None
+        x, y = vs
+        w = INT_BITS[x.ty]
+        lo = 0
+        hi = None
+        for k in range(0, 2 * w + 2):
+            if solver.entails(st.pc, flit(le(y.l, k))):
+                hi = k
+                break
+        if hi is None or hi > 40:
+            return None
+        while lo < hi and solver.entails(st.pc, flit(ge(y.l, lo + 1))):
+            lo += 1
+        out = []
+        for c in range(lo, hi + 1):
+            for s in self.I.assume(st, flit(eq(y.l, c))):
+                out.append((s, "val", self.I.const_shift(s, op, x, c % w, x.ty, w)))
         return out
 
     def i_euclid(self, e, st, a, op):
